@@ -1007,8 +1007,195 @@ fn block_case(idx: u64, rng: &mut Rng, out: &mut Out, seed: u64) {
     out.add("blk_tx_skipped", oracle.0.iter().filter(|o| matches!(o, TxExecutionOutcome::Skipped(_))).count() as u64);
 }
 
+/// Driven stage (deterministic driver, targeted slow-writer schedules): blocks in which the scripted
+/// precompile keeps state in the storage of the code-less nonce-0 account t2, one transaction
+/// empties t2 (EIP-161 removal: the account and its storage go, a storage-reset marker is
+/// published), others refill / rewrite it, and readers load several of its slots in one call. The
+/// schedules freeze a writer between two of its publications until the other workers have done a
+/// chosen number of multi-version reads. Each run vs stock revm in order with the same adapter.
+/// `only` = (block index, schedule index) replays one run and prints its trace.
+fn driven_stage(seed: u64, count: u64, out: &mut Out, only: Option<(u64, u64)>) {
+    use verif_harness::driver::{Driver, Straggler};
+    let mut top = Rng::new(seed ^ 0xD21F);
+    for idx in 0..count {
+        let mut rng = top.fork();
+        if only.is_some_and(|o| o.0 != idx) {
+            continue;
+        }
+        let mut w = gen_bworld(&mut rng);
+        let mut nonces = [0u64; 4];
+        let mut txs: Vec<TxEnv> = Vec::new();
+        let mut descr: Vec<String> = w.descr.iter().filter(|d| d.starts_with('k')).cloned().collect();
+        let mut push = |rng: &mut Rng, ops: Vec<[u8; 4]>, txs: &mut Vec<TxEnv>| {
+            let s = rng.below(4) as usize;
+            let mut data = vec![txs.len() as u8, 0];
+            for o in ops {
+                data.extend_from_slice(&o);
+            }
+            let tx = TxEnv {
+                caller: s_addr(s),
+                nonce: nonces[s],
+                gas_limit: 500_000,
+                gas_price: 1,
+                chain_id: Some(1),
+                kind: TxKind::Call(if rng.chance(3, 4) { P0 } else { k_addr(0) }),
+                data: data.into(),
+                ..Default::default()
+            };
+            nonces[s] += 1;
+            txs.push(tx);
+        };
+        const H: u8 = 2; // table[2] = t2
+        // writer(s), emptier, optional refill + rewrite, reader(s); ordinary counter bumps in between
+        let slots = rng.range(2, 3) as u8;
+        let ops: Vec<[u8; 4]> = (0..slots).map(|k| [3u8, H, k, rng.range(1, 200) as u8]).collect();
+        push(&mut rng, ops, &mut txs);
+        if rng.chance(1, 3) {
+            push(&mut rng, vec![[5, H, 0, 1]], &mut txs);
+        }
+        let emptier = txs.len();
+        push(&mut rng, vec![[2, H, 0, 0]], &mut txs);
+        if rng.chance(1, 3) {
+            let ops = vec![[2, H, 0, rng.range(1, 9) as u8], [3, H, rng.below(slots as u64) as u8, rng.range(1, 200) as u8]];
+            push(&mut rng, ops, &mut txs);
+        }
+        for _ in 0..rng.range(1, 2) {
+            let mut ks: Vec<u8> = (0..slots).collect();
+            if rng.chance(1, 2) {
+                ks.reverse();
+            }
+            let mut ops: Vec<[u8; 4]> = ks.iter().map(|k| [1u8, H, *k, 0]).collect();
+            if rng.chance(1, 3) {
+                ops.insert(0, [0, H, 0, 0]);
+            }
+            push(&mut rng, ops, &mut txs);
+        }
+        if rng.chance(1, 2) {
+            let s = rng.below(4) as usize;
+            txs.insert(rng.below(txs.len() as u64 + 1) as usize, TxEnv { caller: s_addr(s), nonce: 0, gas_limit: 200_000, gas_price: 1, chain_id: Some(1), kind: TxKind::Call(t_addr(0)), ..Default::default() });
+            // re-number the nonces per sender in block order
+            let mut n = [0u64; 4];
+            for t in txs.iter_mut() {
+                let si = (0..4).find(|i| s_addr(*i) == t.caller).unwrap();
+                t.nonce = n[si];
+                n[si] += 1;
+            }
+        }
+        let emptier = txs.iter().position(|t| t.data.len() == 6 && t.data[2] == 2 && t.data[5] == 0).unwrap_or(emptier);
+        for (i, t) in txs.iter().enumerate() {
+            descr.push(format!("tx{i} from={:x} nonce={} to={:?} gas={} price={} value={:x} data={}", t.caller, t.nonce, t.kind, t.gas_limit, t.gas_price, t.value, gc::hex(&t.data)));
+        }
+        w.txs = txs;
+        let cfg = CfgEnv::new_with_spec(w.spec);
+        let block = BlockEnv { beneficiary: MINER, number: U256::from(10), ..Default::default() };
+        let db = Arc::new(w.db.clone());
+        let txs = Arc::new(w.txs.clone());
+        let obs_o = Arc::new(Obs::default());
+        let pc_o = script_precompile(obs_o.clone());
+        let oracle = {
+            let evm = gc::stock_evm(&w.db, &cfg, &block, revm::inspector::NoOpInspector {});
+            let mut evm = evm.with_precompiles(PrecompilesMap::from_static(EthPrecompiles::new(w.spec).precompiles));
+            let alloy = pc_o.to_alloy();
+            evm.precompiles.apply_precompile(&P0, move |_| Some(alloy));
+            gc::run_stock_on(&mut evm, &w.txs, false, |_, _| {})
+        };
+        let oracle = match oracle {
+            Ok(r) => r,
+            Err(e) => {
+                out.fail("run-error", format!("stock revm: {e}"), format!("facade driven {seed} {idx}"));
+                continue;
+            }
+        };
+        let oracle_res = gc::block_result(&oracle);
+        out.bump("driven_blocks");
+        let n_sched = 8;
+        let mut stop = false;
+        for k in 0..n_sched {
+            let srng0 = rng.fork();
+            if only.is_some_and(|o| o.1 != k) {
+                continue;
+            }
+            // the order in which an attempt publishes its locations follows a per-process hash seed, so
+            // one (block, schedule) pair stands for a small family of runs: a replay repeats it
+            for _rep in 0..(if only.is_some() { 60 } else { 1 }) {
+            let mut srng = Rng(srng0.0);
+            let workers = srng.range(2, 3) as usize;
+            let tx = if srng.chance(3, 4) { emptier as i64 } else { srng.below(w.txs.len() as u64) as i64 };
+            let (ith, reads) = (srng.below(6), srng.range(1, 8));
+            let replay = format!("facade driven {seed} {} <outdir> {idx} {k}   # spec={:?} workers={workers} freeze the worker of tx{tx} after its publication #{ith} until the others did {reads} reads\n{}", idx + 1, w.spec, descr.join("\n"));
+            let obs = Arc::new(Obs::default());
+            let pcs: gc::Precompiles = Arc::new(vec![(P0, script_precompile(obs.clone()))]);
+            grevm::verif::reset_interner();
+            let d = Driver::new(workers + 2, Box::new(Straggler::slow_writer_at(srng.fork(), tx, ith, reads)), 300000);
+            d.install();
+            let r = std::panic::catch_unwind(std::panic::AssertUnwindSafe(|| gc::run_grevm(&db, &cfg, &block, &txs, Some(pcs), DelegatedSafetyConfig::disabled(), workers)));
+            Driver::uninstall();
+            let rep = d.report();
+            out.bump("driven_runs");
+            let mut bad = false;
+            match r {
+                Ok(Ok(r)) => {
+                    if let Some(df) = gc::block_result(&r).first_diff(&oracle_res) {
+                        bad = true;
+                        out.fail("parallel-differs-from-in-order-revm", format!("driven run (workers={workers}) vs stock revm with the same adapter: {df}; attempts: {:?}", obs.calls.lock().unwrap().iter().map(obs_key).collect::<Vec<_>>()), replay.clone());
+                    }
+                }
+                Ok(Err(e)) => {
+                    bad = true;
+                    out.fail("run-error", format!("grevm driven: {e}"), replay.clone());
+                }
+                Err(_) => {
+                    bad = true;
+                    out.fail("run-error", "grevm driven: panic".to_owned(), replay.clone());
+                }
+            }
+            if let Some(f) = &rep.failure {
+                bad = true;
+                out.fail("driven-run-did-not-terminate", f.clone(), replay.clone());
+            }
+            if rep.trace.iter().any(|e| e.kind == "cur_rewind") {
+                out.bump("driven_runs_with_rewind");
+            }
+            if obs.calls.lock().unwrap().len() > oracle.0.len() {
+                out.bump("driven_runs_with_reexecution");
+            }
+            if only.is_some() && bad {
+                for (i, dl) in grevm::verif::interned().iter().enumerate() {
+                    println!("# dict {i} {dl}");
+                }
+                print!("{}", verif_harness::driver::trace_lines(&rep.trace));
+            }
+            if bad {
+                stop = true;
+                break;
+            }
+            }
+            if stop {
+                break;
+            }
+        }
+    }
+}
+
 fn main() {
     let a: Vec<String> = std::env::args().collect();
+    if a[1] == "driven" {
+        // facade driven <seed> <count> <outdir> [<block> <schedule>]
+        let (seed, count, outdir) = (a[2].parse::<u64>().unwrap(), a[3].parse::<u64>().unwrap(), &a[4]);
+        let only = a.get(5).map(|b| (b.parse::<u64>().unwrap(), a[6].parse::<u64>().unwrap()));
+        let mut out = Out { inp: String::new(), imp: String::new(), direct: Vec::new(), stats: BTreeMap::new() };
+        driven_stage(seed, count, &mut out, only);
+        fs::create_dir_all(outdir).unwrap();
+        fs::write(format!("{outdir}/driven.direct"), out.direct.join("\n") + if out.direct.is_empty() { "" } else { "\n" }).unwrap();
+        let stats: Vec<String> = out.stats.iter().map(|(k, v)| format!("\"{k}\":{v}")).collect();
+        fs::write(format!("{outdir}/driven.stats"), format!("{{{}}}\n", stats.join(","))).unwrap();
+        if only.is_some() {
+            for d in &out.direct {
+                println!("{d}");
+            }
+        }
+        return;
+    }
     let seed: u64 = a[1].parse().unwrap();
     let n_adapter: u64 = a[2].parse().unwrap();
     let n_block: u64 = a[3].parse().unwrap();
